@@ -12,4 +12,5 @@ import SwcVerif.Model.AlgoRunNodeBranch
 import SwcVerif.Model.AlgoRunMst
 import SwcVerif.Model.AlgoRunParse
 import SwcVerif.Model.AlgoRunCut
+import SwcVerif.Model.AlgoRunRepair
 /-! all runners of generated definitions (imported by the root module only; the driver imports them one by one) -/
